@@ -22,7 +22,11 @@ def main():
     try:
         if a.replay:
             return core.replay(a.prop.upper(), a.replay)
-        return core.run_property(a.prop.upper(), a.tier, seed, only=a.only.split(',') if a.only else None)
+        rc = core.run_property(a.prop.upper(), a.tier, seed, only=a.only.split(',') if a.only else None)
+        if a.only is None and not sys.flags.optimize and os.environ.get('VERIF_SKIP_OPTIMIZED') != '1':
+            rc2 = core.run_optimized_child(a.prop.upper(), a.tier, seed)        # the same property with `python -O`
+            rc = 1 if 1 in (rc, rc2) else 2 if 2 in (rc, rc2) else 0
+        return rc
     except Exception:
         import traceback
         traceback.print_exc()
